@@ -70,9 +70,10 @@ pub(crate) fn build(sk: &Skel) -> Built {
 
 /// A reader over a fixed array that copies byte by byte with plain indexing and hands out at most `chunk` bytes per
 /// call (source fragmentation).  `len` may be smaller than the frame (truncation) or larger (trailing bytes).
-pub(crate) struct ArrSrc { pub data: [u8; MAXF + 4], pub pos: usize, pub len: usize, pub chunk: usize }
+pub(crate) struct ArrSrc { pub data: [u8; MAXF + 4], pub pos: usize, pub len: usize, pub chunk: usize, pub failed: bool, pub prune: bool }
 impl Read for ArrSrc {
     fn read(&mut self, buf: &mut [u8]) -> Result<usize, Error> {
+        if self.failed && self.prune { nd::stop(); }
         let mut n = self.len - self.pos;
         if buf.len() < n { n = buf.len(); }
         if self.chunk < n { n = self.chunk; }
@@ -81,8 +82,24 @@ impl Read for ArrSrc {
         self.pos += n;
         Ok(n)
     }
+    // Same contract as the default read_exact (all-or-error, source exhausted on error); written out so that the EOF
+    // error is a plain ErrorKind value (std's default returns a pointer-tagged static that CBMC cannot constant-fold,
+    // which makes it explore the success continuation of every failed read as well).
+    fn read_exact(&mut self, buf: &mut [u8]) -> Result<(), Error> {
+        if self.failed && self.prune { nd::stop(); }
+        let avail = self.len - self.pos;
+        if avail < buf.len() {
+            self.pos = self.len;
+            self.failed = true;
+            return Err(Error::from(crate::io::ErrorKind::UnexpectedEof));
+        }
+        let mut k = 0;
+        while k < buf.len() { buf[k] = self.data[self.pos + k]; k += 1; }
+        self.pos += buf.len();
+        Ok(())
+    }
 }
-pub(crate) fn src_of(b: &Built, len: usize, chunk: usize) -> ArrSrc { ArrSrc { data: b.data, pos: 0, len, chunk } }
+pub(crate) fn src_of(b: &Built, len: usize, chunk: usize) -> ArrSrc { ArrSrc { data: b.data, pos: 0, len, chunk, failed: false, prune: false } }
 
 const fn blk(rle: bool, size: usize) -> Blk { Blk { rle, size } }
 const NOBLK: Blk = Blk { rle: false, size: 0 };
@@ -169,38 +186,41 @@ pub(crate) fn decode_cut(sk: &Skel, cut: usize, one_by_one: bool) {
     let b = build(sk);
     assert!(cut <= b.flen);
     let mut src = src_of(&b, cut, usize::MAX);
+    src.prune = true;
     let mut dec = FrameDecoder::new();
     let r0 = dec.reset(&mut src);
-    if cut < 6 {
-        match r0 { Ok(()) => panic!("header accepted from a truncated source"), Err(e) => core::mem::forget(e) }
-        nd_cover!(true, "cut inside the header");
-        core::mem::forget(dec);
-        return;
-    }
-    ok_or_fail!(r0, "valid header refused");
     let mut out = [0u8; MAXC];
     let mut n = 0usize;
-    let mut failed = false;
-    if one_by_one {
-        let mut k = 0;
-        while k < sk.nblocks && !failed && !dec.is_finished() {
-            match dec.decode_blocks(&mut src, BlockDecodingStrategy::UptoBlocks(1)) { Ok(_) => {}, Err(e) => { failed = true; core::mem::forget(e); } }
+    if cut < 6 {
+        match r0 { Ok(()) => panic!("header accepted from a truncated source"), Err(e) => core::mem::forget(e) }
+    } else {
+        ok_or_fail!(r0, "valid header refused");
+        let mut failed = false;
+        if one_by_one {
+            let mut k = 0;
+            while k < sk.nblocks && !failed && !dec.is_finished() {
+                let r = dec.decode_blocks(&mut src, BlockDecodingStrategy::UptoBlocks(1));
+                failed = r.is_err();
+                core::mem::forget(r);
+                n += ok_or_fail!(Read::read(&mut dec, &mut out[n..]), "read failed");
+                k += 1;
+            }
+        } else {
+            let r = dec.decode_blocks(&mut src, BlockDecodingStrategy::All);
+            failed = r.is_err();
+            core::mem::forget(r);
             n += ok_or_fail!(Read::read(&mut dec, &mut out[n..]), "read failed");
-            k += 1;
         }
-    } else {
-        match dec.decode_blocks(&mut src, BlockDecodingStrategy::All) { Ok(_) => {}, Err(e) => { failed = true; core::mem::forget(e); } }
-        n += ok_or_fail!(Read::read(&mut dec, &mut out[n..]), "read failed");
-    }
-    if cut == b.flen {
-        assert!(!failed, "complete frame refused");
-        check_finished(&dec, sk, &b, &src);
-        n += ok_or_fail!(Read::read(&mut dec, &mut out[n..]), "read failed");
-        assert!(n == b.clen);
-    } else {
-        assert!(failed, "strict prefix of a frame decoded without an error");
-        assert!(!dec.is_finished(), "strict prefix of a frame reported as finished");
-        assert!(n <= b.clen);
+        if cut == b.flen {
+            assert!(!failed, "complete frame refused");
+            check_finished(&dec, sk, &b, &src);
+            n += ok_or_fail!(Read::read(&mut dec, &mut out[n..]), "read failed");
+            assert!(n == b.clen);
+        } else {
+            assert!(failed, "strict prefix of a frame decoded without an error");
+            assert!(!dec.is_finished(), "strict prefix of a frame reported as finished");
+            assert!(n <= b.clen);
+        }
     }
     nd_cover!(true, "reached the end of the schedule");
     if n > 0 {
@@ -350,6 +370,7 @@ pub(crate) fn reuse(a: &Skel, hist: u8, cut: usize, bsk: &Skel) {
     {
         let alen = if hist == 3 { cut } else { fa.flen };
         let mut src = src_of(&fa, alen, usize::MAX);
+        src.prune = true;
         match dec.reset(&mut src) {
             Ok(()) => {
                 match hist {
